@@ -16,12 +16,14 @@ heads; each head is classified by where it was written:
     originDirect     — anything else
 and scanned for the configured credential (base64 token anywhere in the head, and any (Proxy-)Authorization field).
 """
-import base64, json, re
+import base64, json, os, re, ssl
 
 from common.check import PropertyCheck, Skip, hx, unhx
 from common.world import World
 
-from mitmproxy.addons import next_layer, proxyserver, upstream_auth
+from mitmproxy import certs
+from mitmproxy.addons import next_layer, proxyserver, tlsconfig, upstream_auth
+from common.paths import WORK
 from mitmproxy.connection import Client, ConnectionState
 from mitmproxy.proxy import context, mode_specs
 from mitmproxy.proxy.layers import modes
@@ -66,6 +68,71 @@ def parse_statuses(data: bytes):
     return out
 
 
+CONFDIR = os.path.join(WORK, "c24", "conf")
+_SERVER_CTX = None
+
+
+def ensure_confdir():
+    """mitmproxy CA + an origin certificate signed by it, created once (before any worker forks)"""
+    os.makedirs(CONFDIR, exist_ok=True)
+    pem = os.path.join(CONFDIR, "origin.pem")
+    if not os.path.exists(pem):
+        from cryptography.hazmat.primitives import serialization
+        store = certs.CertStore.from_store(CONFDIR, "mitmproxy", 2048)
+        entry = store.get_cert("origin.example", ["*.example"])
+        data = entry.privatekey.private_bytes(serialization.Encoding.PEM, serialization.PrivateFormat.TraditionalOpenSSL,
+                                              serialization.NoEncryption()) + entry.cert.to_pem()
+        tmp = pem + ".%d" % os.getpid()
+        with open(tmp, "wb") as f: f.write(data)
+        os.replace(tmp, pem)
+    return pem
+
+
+def server_ctx():
+    global _SERVER_CTX
+    if _SERVER_CTX is None:
+        c = ssl.SSLContext(ssl.PROTOCOL_TLS_SERVER)
+        c.load_cert_chain(ensure_confdir())
+        _SERVER_CTX = c
+    return _SERVER_CTX
+
+
+class TlsPeer:
+    """in-memory TLS server standing in for the origin: decrypts what mitmproxy writes, encrypts the stub's answers"""
+
+    def __init__(self):
+        self.inc, self.out = ssl.MemoryBIO(), ssl.MemoryBIO()
+        self.obj = server_ctx().wrap_bio(self.inc, self.out, server_side=True)
+        self.done, self.dead = False, False
+
+    def feed(self, data: bytes):
+        plain = b""
+        if self.dead: return plain, b""
+        self.inc.write(data)
+        try:
+            if not self.done:
+                try:
+                    self.obj.do_handshake(); self.done = True
+                except ssl.SSLWantReadError:
+                    pass
+            if self.done:
+                try:
+                    while True:
+                        chunk = self.obj.read(65536)
+                        if not chunk: break
+                        plain += chunk
+                except ssl.SSLWantReadError:
+                    pass
+        except ssl.SSLError:
+            self.dead = True
+        return plain, self.out.read()
+
+    def send(self, data: bytes) -> bytes:
+        if self.dead or not self.done: return b""
+        self.obj.write(data)
+        return self.out.read()
+
+
 class Conn:
     def __init__(self, tctx, cid, mode):
         self.cid, self.mode = cid, mode
@@ -77,25 +144,52 @@ class Conn:
             self.ctx.server.address = ("origin.example", 80)
         self.w = World(TOP[mode](self.ctx), self.ctx, on_hook=lambda w, h: tctx.master.addons.trigger(h))
         self.w.start()
-        self.pos, self.cpos, self.spos = {}, 0, {}
-        self.tunnelled_at = {}       # server label -> offset after which bytes travel through the CONNECT tunnel
+        self.cpos = 0
+        self.labs = {}               # server label -> stream state
+        self.writes, self.nrep = [], 0
         self.tunnel = False
         if mode == "socks5":
             self.w.recv("client", SOCKS_HELLO); self.w.recv("client", SOCKS_CONNECT)
             self.cpos = len(self.w.sent_to("client"))
 
+    def dest_of(self, lab, st, tls):
+        addr = self.w.conns[lab].address
+        if addr == PROXY: return "originViaTunnel" if (st["tun"] is not None or tls) else "proxy"
+        if addr == TARGET and self.mode == "reverse": return "reverseTarget"
+        return "originDirect"
+
     def pump(self):
+        """stub for everything upstream: the upstream proxy (answers CONNECT with 200), the origin / reverse target
+        (answers 299), and — when a TLS ClientHello arrives, directly or through the tunnel — a TLS-terminating origin"""
         w, progress = self.w, True
         while progress:
             progress = False
             for lab in w.server_labels():
-                data = w.sent_to(lab); p = self.pos.get(lab, 0)
-                i = data.find(b"\r\n\r\n", p)
+                data = w.sent_to(lab)
+                st = self.labs.setdefault(lab, {"raw": 0, "tun": None, "tls": None, "plain": bytearray(), "ppos": 0})
+                if st["tls"] is None and len(data) > st["raw"] and data[st["raw"]] == 0x16:
+                    st["tls"] = TlsPeer()
+                if st["tls"] is not None:
+                    if len(data) > st["raw"]:
+                        plain, reply = st["tls"].feed(data[st["raw"]:]); st["raw"] = len(data)
+                        st["plain"] += plain
+                        if reply: w.recv(lab, reply)
+                        progress = True
+                    i = bytes(st["plain"]).find(b"\r\n\r\n", st["ppos"])
+                    if i >= 0:
+                        head = bytes(st["plain"][st["ppos"]:i + 4]); st["ppos"] = i + 4
+                        self.writes.append((self.dest_of(lab, st, True), head, True))
+                        enc = st["tls"].send(b"HTTP/1.1 299 Forwarded\r\nContent-Length: 2\r\n\r\nok")
+                        if enc: w.recv(lab, enc)
+                        progress = True
+                    continue
+                i = data.find(b"\r\n\r\n", st["raw"])
                 if i >= 0:
-                    self.pos[lab] = i + 4
-                    if data[p:i].startswith(b"CONNECT") and lab not in self.tunnelled_at:
-                        if w.recv(lab, b"HTTP/1.1 200 OK\r\n\r\n"):
-                            self.tunnelled_at[lab] = i + 4
+                    head = data[st["raw"]:i + 4]
+                    self.writes.append((self.dest_of(lab, st, False), head, False))
+                    st["raw"] = i + 4
+                    if head.startswith(b"CONNECT ") and st["tun"] is None:
+                        if w.recv(lab, b"HTTP/1.1 200 OK\r\n\r\n"): st["tun"] = i + 4
                     else:
                         w.recv(lab, b"HTTP/1.1 299 Forwarded\r\nContent-Length: 2\r\n\r\nok")
                     progress = True
@@ -104,21 +198,8 @@ class Conn:
         """client bytes and upstream request heads (with their place) that became visible since the last step"""
         w = self.w
         cdata = w.sent_to("client"); cnew = cdata[self.cpos:]; self.cpos = len(cdata)
-        writes = []
-        for lab in w.server_labels():
-            data = w.sent_to(lab); p = self.spos.get(lab, 0)
-            addr = w.conns[lab].address
-            off = p
-            heads, rest = parse_heads(data[p:])
-            for h in heads:
-                if addr == PROXY:
-                    t = self.tunnelled_at.get(lab)
-                    dest = "originViaTunnel" if (t is not None and off >= t) else "proxy"
-                elif addr == TARGET and self.mode == "reverse": dest = "reverseTarget"
-                else: dest = "originDirect"
-                writes.append((dest, h)); off += len(h)
-            self.spos[lab] = len(data) - len(rest)
-        return cnew, writes
+        ws = self.writes[self.nrep:]; self.nrep = len(self.writes)
+        return cnew, ws
 
 
 class Check(PropertyCheck):
@@ -166,6 +247,7 @@ class Check(PropertyCheck):
 
     def setup(self, tier):
         self.parallel = tier == "thorough"
+        server_ctx()          # CA + origin certificate exist before any worker forks
 
     CRED = "user:s3cret"
     TOKEN = base64.b64encode(CRED.encode())
@@ -182,7 +264,6 @@ class Check(PropertyCheck):
             for auth in (True, False):
                 for n in (1, 2, 3):
                     for seq in itertools.product(self.STEPS, repeat=n):
-                        if "https" in seq[:-1]: continue
                         yield self.mk_case(auth, [mode], [{"c": 0, "k": k} for k in seq])
 
     def generate(self, rng, tier):
@@ -197,8 +278,7 @@ class Check(PropertyCheck):
             conns = [rng.weighted([(5, "upstream"), (2, "regular"), (2, "reverse"), (1, "transparent"), (1, "socks5")]) for _ in range(nconn)]
             pending = []
             for cid in range(nconn):
-                q = [{"c": cid, "k": rng.weighted([(5, "http"), (2, "http2"), (3, "c80"), (2, "c443")])} for _ in range(rng.randint(1, maxper))]
-                if rng.chance(0.2): q.append({"c": cid, "k": "https"})
+                q = [{"c": cid, "k": rng.weighted([(5, "http"), (2, "http2"), (3, "c80"), (2, "c443"), (3, "https")])} for _ in range(rng.randint(1, maxper))]
                 pending.append(q)
             steps = []
             while any(pending):
@@ -219,7 +299,13 @@ class Check(PropertyCheck):
 
     def impl(self, case):
         ua = upstream_auth.UpstreamAuth()
-        with taddons.context(ua, next_layer.NextLayer(), proxyserver.Proxyserver()) as tctx:
+        addons = [ua, next_layer.NextLayer(), proxyserver.Proxyserver()]
+        need_tls = any(st["k"] == "https" and is_proxy_mode(case["conns"][st["c"]]["mode"]) for st in case["steps"])
+        if need_tls: addons.append(tlsconfig.TlsConfig())
+        with taddons.context(*addons) as tctx:
+            if need_tls:
+                ensure_confdir()
+                tctx.options.update(confdir=CONFDIR, ssl_insecure=True, http2=False)
             tctx.configure(ua, upstream_auth=self.CRED if case["auth"] else None)
             conns = [Conn(tctx, cid, c["mode"]) for cid, c in enumerate(case["conns"])]
             outs = []
@@ -230,14 +316,14 @@ class Check(PropertyCheck):
                 cnew, writes = cn.delta()
                 sts = parse_statuses(cnew)
                 ws = []
-                for dest, head in writes:
+                for dest, head, tls in writes:
                     form = "connect" if head.startswith(b"CONNECT ") else "request"
                     fields = [l.partition(b":") for l in head.split(b"\r\n")[1:] if l]
                     creds = sorted({k.strip().lower().decode("latin1") for k, _, v in fields if self.TOKEN in v})
                     other = sorted({k.strip().lower().decode("latin1") for k, _, v in fields
                                     if k.strip().lower() in (b"proxy-authorization", b"authorization") and self.TOKEN not in v})
                     stray = self.TOKEN in head and not creds
-                    ws.append({"dest": dest, "form": form, "creds": creds, "other_auth": other, "stray": stray})
+                    ws.append({"dest": dest, "form": form, "tls": tls, "creds": creds, "other_auth": other, "stray": stray})
                 if st["k"] in ("c80", "c443") and sts == [200]: cn.tunnel = True
                 outs.append({"client": sts, "writes": ws, "closed": cn.client not in cn.w.transports})
             return {"steps": outs, "errors": [e[0] + ": " + e[1][:200] for cn in conns for e in cn.w.errors],
@@ -268,31 +354,12 @@ class Check(PropertyCheck):
         return fails
 
     # ------------------------------------------------------------------ model tie
-    @staticmethod
-    def modelled(case):
-        """an https-scheme request ends its connection in this harness (TLS is not driven): it must be the last step there"""
-        dead = set()
-        for st in case["steps"]:
-            if st["c"] in dead: return False
-            if st["k"] == "https" and is_proxy_mode(case["conns"][st["c"]]["mode"]):
-                dead.add(st["c"])
-        return True
-
     def model_lines(self, case):
-        if not self.modelled(case): return None
         evs = " ".join(f"{st['c']}/{st['k']}" for st in case["steps"])
         return [f"run {1 if case['auth'] else 0} {','.join(c['mode'] for c in case['conns'])} {evs}"]
 
     def model_obs(self, case, replies):
-        # the model's TLS-protected write of an https request is not observable here (TLS is not driven): drop it
-        toks = []
-        for t in replies[0].split(" "):
-            if "[" in t:
-                head, _, body = t.partition("[")
-                ws = [w for w in body.rstrip("]").split("+") if w and not w.endswith(".tls")]
-                t = head + "[" + "+".join(ws) + "]"
-            toks.append(t)
-        return " ".join(toks)
+        return replies[0]
 
     HDR = {"proxy-authorization": "pa", "authorization": "a"}
 
@@ -301,13 +368,13 @@ class Check(PropertyCheck):
         ws = []
         for w in o["writes"]:
             if w["stray"] or w["other_auth"] or len(w["creds"]) > 1: return f"?write:{w}"
-            ws.append(f"{w['dest']}.{w['form']}." + (self.HDR.get(w["creds"][0], "?") if w["creds"] else "none"))
+            ws.append(f"{w['dest']}.{w['form']}." + (self.HDR.get(w["creds"][0], "?") if w["creds"] else "none") +
+                      (".tls" if w["tls"] else ""))
         body = "[" + "+".join(ws) + "]"
         sts = o["client"]
         if sts == [299] and not o["closed"] and st["k"] not in ("c80", "c443"): return "R" + body
         if sts == [200] and not o["closed"] and st["k"] in ("c80", "c443"): return "T" + body
         if sts == [400] and o["closed"] and st["k"] in ("c80", "c443"): return "E" + body
-        if sts == [502] and o["closed"] and st["k"] == "https": return "S" + body   # TLS not driven: 502 + close
         if sts == [] and o["closed"]: return "I" + body
         return f"?{st['k']}:{sts}:{o['closed']}" + body
 
@@ -324,7 +391,7 @@ class Check(PropertyCheck):
         for st, o in zip(case["steps"], obs["steps"]):
             mode = case["conns"][st["c"]]["mode"]
             for w in o["writes"]:
-                out.append(f"{mode}:{w['dest']}.{w['form']}:" + ("cred" if w["creds"] else "nocred"))
+                out.append(f"{mode}:{w['dest']}.{w['form']}{'.tls' if w['tls'] else ''}:" + ("cred" if w["creds"] else "nocred"))
             if not o["writes"]: out.append(f"{mode}:{st['k']}:nowrite")
         if len(case["conns"]) > 1: out.append("two-clients")
         return out
